@@ -80,7 +80,7 @@ def judge(c, obs, out, rep):
     want = "PERMISSION_DENIED" if a["kind"] == "auth" else "INVALID_ARGUMENT"
     if err["kind"] != "service" or err["code"] != want:
         out.violation("C19:code:%s:%s" % (a["kind"], o), "argument %s %s: error %s/%s, expected %s" % (a["name"], o, err["kind"], err["code"], want), rep)
-    if a["kind"] in ("path", "query", "header"):
+    if a["kind"] in ("path", "rpath", "query", "header"):
         got = err["safe_params"].get("param")
         if got != a["name"]:
             out.violation("C19:param-name:%s" % a["kind"], "param = %r, declared name is %r" % (got, a["name"]), rep)
